@@ -193,14 +193,16 @@ class Inputs:
         self.lookups = list(lookups)
         self.shape = shape
 
-    def materialize(self, base, rng=None):
-        """writes the set below `base`; the creation order is shuffled so that directory listings differ between copies"""
+    def materialize(self, base, rng=None, top=None):
+        """writes the set below `base`; the creation order is shuffled so that directory listings differ between copies;
+        top: other names for the top-level directories (the directory right above a root namespace is part of the location)"""
         base = pathlib.Path(base)
         names = sorted(self.files)
         if rng is not None:
             rng.shuffle(names)
         for rel in names:
-            p = base / rel
+            first, _, rest = rel.partition("/")
+            p = base / (top or {}).get(first, first) / rest
             p.parent.mkdir(parents=True, exist_ok=True)
             p.write_text(self.files[rel])
         return base
@@ -551,6 +553,15 @@ class Lab:
     """Owns the scratch layout, the copies of every input set at the absolute locations A / B / C, and executes runs."""
 
     LOCS = {"A": "locA9f3", "B": "locB" + "x" * 57 + "/deeperB/stillB", "C": "locC7c1e"}
+    # the directories right above the root namespaces belong to the location too (a path made relative one level too high keeps their name)
+    TOP = {"A": {}, "B": {"in": "srcB_inputs", "lk": "lookupB"}, "C": {"in": "in.C", "lk": "lk"}}
+
+    def top(self, base, name):
+        """the directory called `name` in location A, under the copy `base`"""
+        for loc, d in self.LOCS.items():
+            if ("/" + d + "/") in (str(base) + "/"):
+                return base / self.TOP[loc].get(name, name)
+        raise MachineryFailure("not a copy of an input set: %s" % base)
 
     def __init__(self, ctx):
         self.ctx = ctx
@@ -573,7 +584,7 @@ class Lab:
         key = (inputs.id, loc)
         if key not in self.copies:
             base = self.base / self.LOCS[loc] / ("i%d" % inputs.id)
-            inputs.materialize(base, self.ctx.rng if loc != "A" else None)
+            inputs.materialize(base, self.ctx.rng if loc != "A" else None, self.TOP[loc])
             self.copies[key] = base
         return self.copies[key]
 
@@ -599,14 +610,14 @@ class Lab:
         self.nrun += 1
         base = self.copy_of(inputs, amb["loc"])
         out = (base / "out" if amb["outloc"] == "in" else self.base / "elsewhere" / ("o" * 23)) / ("r%d" % self.nrun)
-        cwd = {"work": self.base / "work", "root": pathlib.Path("/"), "input": base / "in" / inputs.root, "base": base}[amb["cwd"]]
+        cwd = {"work": self.base / "work", "root": pathlib.Path("/"), "input": self.top(base, "in") / inputs.root, "base": base}[amb["cwd"]]
         if amb["spell"] == "rel":
             sp = lambda p: os.path.relpath(str(p), str(cwd))  # noqa: E731
         else:
             sp = str
         job = {"id": self.nrun, "front": opts.front, "cwd": str(cwd), "clock": amb["clock"], "tz": amb["tz"], "out": str(out),
                "as_main": amb["proc"] == "sub"}
-        lk = [sp(base / "lk" / l) for l in inputs.lookups]
+        lk = [sp(self.top(base, "lk") / l) for l in inputs.lookups]
 
         def fill(a):
             if "{btpl}" in a:
@@ -622,11 +633,11 @@ class Lab:
             argv += [fill(a) for a in opts.args]
             if opts.audit:
                 argv.append("--embed-auditing-info")
-            argv.append(sp(base / "in" / inputs.root))
+            argv.append(sp(self.top(base, "in") / inputs.root))
             job["argv"] = argv
         else:
             api = {k: (fill(v) if isinstance(v, str) else v) for k, v in opts.api.items()}
-            api.update(language_key=opts.lang, root_namespace_dir=sp(base / "in" / inputs.root), out_dir=sp(out), lookup_directories=lk,
+            api.update(language_key=opts.lang, root_namespace_dir=sp(self.top(base, "in") / inputs.root), out_dir=sp(out), lookup_directories=lk,
                        include_experimental_languages=True, embed_auditing_info=bool(opts.audit))
             job["api"] = api
         return job, out, base
@@ -748,6 +759,9 @@ def where_differs(a, b, loc_a, loc_b):
                 return "gzip-header-mtime", "gzip header %s vs %s, payload identical" % (x[:10].hex(), y[:10].hex())
             ua = [c for c in loc_a.split("/") if c and c not in loc_b.split("/")]
             ub = [c for c in loc_b.split("/") if c and c not in loc_a.split("/")]
+            tops = [t.encode() for d in Lab.TOP.values() for t in d.values()]
+            if any((t in px) != (t in py) for t in tops):
+                return "pickled-model-abspath", "pickled model contains the name of the directory above the root namespace"
             if ua and ub and all(c.encode() in px for c in ua) and all(c.encode() in py for c in ub):
                 return "pickled-model-abspath", "pickled model contains the path components %r resp. %r of the input location" % (ua, ub)
             return "pickled-model-state", "pickled model payload differs (%d vs %d bytes) without an absolute path being involved" % (len(px), len(py))
